@@ -128,6 +128,10 @@ func specSortOfTypeName(name string) string {
 		return SF64
 	case "error":
 		return SErr
+	case "tag":
+		return STag
+	case "reader":
+		return SReader
 	}
 	return ""
 }
@@ -204,6 +208,9 @@ func (e *SpecEnv) eval(n *Node) SV {
 		}
 		if sig, ok := c.U.Specs[n.Name]; ok && len(sig.Params) == 0 {
 			return SV{T: Term{S: n.Name, Sort: sig.Result}}
+		}
+		if strings.HasPrefix(n.Name, "Tag_") {
+			return SV{T: Term{S: n.Name, Sort: STag, C: "tag:" + n.Name[4:]}}
 		}
 		if strings.Contains(n.Name, "_") { // alias-qualified constant: v3m_AttackVectorNetwork
 			i := strings.Index(n.Name, "_")
@@ -434,6 +441,9 @@ func (e *SpecEnv) evalBin(n *Node) SV {
 func nilOfSort(s string) Term {
 	if s == SErr {
 		return errNil
+	}
+	if s == SReader {
+		return zeroTerm(SReader)
 	}
 	return mkInt(0)
 }
